@@ -444,6 +444,11 @@ func (s *c10State) genOp() (op ftOp, craft string) {
 		name := s.names[rc.Intn(len(s.names))]
 		tr := s.tracking()
 		op.Account, op.Parent, op.Child = a, t.Address, ftH(name)
+		if rc.Chance(0.06) {
+			// the folder's account hash written with upper-case hex digits: a different string, so a different (absent) folder
+			op.Account = strings.ToUpper(a)
+			craft = "upper-case-account"
+		}
 		op.Contents = fmt.Sprintf(`{"n":%q,"v":%d}`, name, rc.Intn(1000))
 		op.Tracking = tr
 		op.Editors = s.accessJSON("e", tr, s.subset(signer), nil)
